@@ -192,20 +192,41 @@ def r4_enter_wakes(r, facts):
     r.floor(1)
 
 
+def always_wakes(facts):
+    """paths of crate functions every successful return of which has passed wake_blocked_futures — directly or
+    through another such function (least fixpoint over the callers of wake_blocked_futures).  For functions
+    returning Result only the Ok returns count (a failed enter is an error return of poll as well)."""
+    done = {WBF}
+    changed = True
+    while changed:
+        changed = False
+        cands = set()
+        for w in list(done):
+            for (g, loc, t) in facts.callers.get(w, []):
+                if g.path not in done and g.kind != 'closure':
+                    cands.add(g.path)
+        for path in sorted(cands):
+            g = facts.fn(path)
+            wl = [l for l, t in g.calls() if (t.get('callee') or '') in done or (t.get('resolved') or '') in done]
+            oks = [loc for loc, s in g.assigns() if s['lhs']['l'] == 0 and not s['lhs']['p'] and s['rv']['k'] == 'agg' and s['rv'].get('variant') == 'Ok']
+            if oks:
+                good = all(g.forward_paths_hit([], [o], blockers=wl, arm_at=Loc(0, 0)) is None for o in oks)
+            else:
+                good = g.forward_paths_hit([Loc(0, 0)], g.returns(), blockers=wl) is None
+            if good:
+                done.add(path)
+                changed = True
+    return done
+
+
 def r4b_poll_wakes(r, facts):
     """every successful return of Completions::poll (Ring::poll) has given futures blocked on queue space a
     chance: a call of wake_blocked_futures lies on every path to `Ok(())` — directly in poll, or through a
-    callee all of whose Ok-returning paths call it"""
+    callee all of whose (Ok-)returning paths call it"""
     f = facts.fn('io_uring::cq::Completions::poll')
-    e = facts.fn(ENTER)
-    # does every Ok return of enter wake?
-    oks = [loc for loc, s in e.assigns() if s['lhs']['l'] == 0 and s['rv']['k'] == 'agg' and s['rv'].get('variant') == 'Ok']
-    wl = [l for l, _ in e.calls_to(WBF)]
-    enter_always = all(e.forward_paths_hit([], [o], blockers=wl, arm_at=Loc(0, 0)) is None for o in oks) and bool(oks)
-    r.inst('Shared::enter wakes on every Ok return: %s' % enter_always, e.where())
-    wakes = [l for l, _ in f.calls_to(WBF)]
-    if enter_always:
-        wakes += [l for l, _ in f.calls_to(ENTER)]
+    aw = always_wakes(facts)
+    r.inst('functions that wake blocked futures on every (Ok) return: %s' % sorted(x.split('::')[-1] for x in aw), f.where())
+    wakes = [l for l, t in f.calls() if (t.get('callee') or '') in aw or (t.get('resolved') or '') in aw]
     okret = [loc for loc, s in f.assigns() if s['lhs']['l'] == 0 and s['rv']['k'] == 'agg' and s['rv'].get('variant') == 'Ok']
     r.require(bool(okret), 'Completions::poll/ok', 'Ok return of Completions::poll not found', f.where())
     for o in okret:
